@@ -82,9 +82,12 @@ def check(run):
             raise Inconclusive("harness-level inconsistency: %s" % syncfam.harness_failures(tr_all)[:2])
         tr = syncfam.filter_prefix(tr_all, {"C05"})
         fails += syncfam.confirm_by_replay_prefixed(run, "sync", "SyncTrace", tr, {"C05"}, _sig, syncfam.text_default, fam_extra, witness=True)
-    for nm, fn in (("drop one add/modify notification", _drop_note), ("corrupt the byte part of one digest", _wrong_digest),
-                   ("drop the only delete notification of a case", _drop_delete)):
-        syncfam.selftest_corrupt_prefixed(run, "SyncTrace", t1, fn, nm, {"C05"})
+    # binding self-tests corrupt an ACCEPTED trace; with violations on record the trace is not one (a corruption may even
+    # repair the case it lands on), and the verdict does not need them
+    if not any(f.get("signature") is None for f in fails):
+        for nm, fn in (("drop one add/modify notification", _drop_note), ("corrupt the byte part of one digest", _wrong_digest),
+                       ("drop the only delete notification of a case", _drop_delete)):
+            syncfam.selftest_corrupt_prefixed(run, "SyncTrace", t1, fn, nm, {"C05"})
     gate_model(md, fails)
     return finish(run, "model_checking", fails, assumptions=ASSUME)
 
